@@ -1,9 +1,9 @@
 import re
-from textwrap import indent
 
 from pydbml.classes import Table
 from pydbml.renderer.dbml.default.renderer import DefaultDBMLRenderer
 from pydbml.renderer.dbml.default.utils import comment_to_dbml, quote_string
+from pydbml.tools import indent_lines as indent
 
 
 def get_full_name_for_dbml(model) -> str:
